@@ -1,5 +1,125 @@
-import Rtcm.Model.Names
-import Rtcm.Model.Socket
+import Rtcm.Lemmas.Label
+import Rtcm.Model.WF
 import Rtcm.Gen.Tables
+/-
+  C16 — the MSM label option changes signal labels only.
+-/
 namespace Rtcm
+
+abbrev T16 := Rtcm.Gen.tables
+
+/-- the derived counters of the current tables are not CELLSIG-typed data fields -/
+theorem C16_derived_plain : DerivedPlain T16 := by
+  intro k hk
+  have h : ∀ k ∈ [0, 1, 2, 3, 4], isCsigFid T16 (T16.nf + k) = false := by decide +kernel
+  exact h k (by simp; omega)
+
+/-- what two constructor results have in common under two label options -/
+def MsgRel (T : Tables) (r1 r2 : Outcome Msg) : Prop :=
+  match r1, r2 with
+  | .ok m1, .ok m2 => AttrsRel T m1.attrs m2.attrs ∧ m1.id = m2.id ∧ m1.payload = m2.payload ∧ m1.unknown = m2.unknown
+  | .lib e1, .lib e2 => e1 = e2
+  | .foreign e1, .foreign e2 => e1 = e2
+  | _, _ => False
+
+/-- **Main theorem.**  Parsing the same payload with any two label option values either fails alike
+    or yields messages with the same identity and the same attributes in the same order, whose values
+    agree on every attribute except those of CELLSIG-typed fields (which are texts under both). -/
+theorem label_changes_cellsig_only (T : Tables) (hd : DerivedPlain T) (p : Option Bytes) (l1 l2 : Nat) :
+    MsgRel T (construct T p l1) (construct T p l2) := by
+  unfold construct
+  cases p with
+  | none => simp [MsgRel]
+  | some p =>
+    simp only
+    cases identity p with
+    | foreign e => simp [MsgRel]
+    | lib e => simp [MsgRel]
+    | ok id =>
+      simp only
+      cases getDict T id with
+      | none =>
+        show AttrsRel T _ _ ∧ id = id ∧ p = p ∧ true = true
+        refine ⟨?_, rfl, rfl, rfl⟩
+        apply AttrsRel.cons _ _ _ _ _ _ AttrsRel.nil
+        unfold ValRel
+        split
+        · exact ⟨_, _, rfl, rfl⟩
+        · rfl
+      | some d =>
+        simp only
+        have := decItems_rel ⟨T, Payload.ofBytes p, id, l1⟩ ⟨T, Payload.ofBytes p, id, l2⟩ rfl rfl rfl
+          hd d [] DState.init DState.init (StRel.init T)
+        cases r1 : decItems ⟨T, Payload.ofBytes p, id, l1⟩ d [] DState.init with
+        | error e1 =>
+          cases r2 : decItems ⟨T, Payload.ofBytes p, id, l2⟩ d [] DState.init with
+          | error e2 => simp [MsgRel]
+          | ok s2 => rw [r1, r2] at this; simp [ExRel] at this
+        | ok s1 =>
+          cases r2 : decItems ⟨T, Payload.ofBytes p, id, l2⟩ d [] DState.init with
+          | error e2 => rw [r1, r2] at this; simp [ExRel] at this
+          | ok s2 =>
+            rw [r1, r2] at this
+            show AttrsRel T s1.attrs s2.attrs ∧ id = id ∧ p = p ∧ false = false
+            exact ⟨this.attrs, rfl, rfl, rfl⟩
+
+theorem C16_label_changes_cellsig_only (p : Option Bytes) (l1 l2 : Nat) :
+    MsgRel T16 (construct T16 p l1) (construct T16 p l2) :=
+  label_changes_cellsig_only T16 C16_derived_plain p l1 l2
+
+/-- reading `AttrsRel` off: same attribute names in the same order … -/
+theorem attrsRel_keys (T : Tables) (a1 a2 : Attrs) (h : AttrsRel T a1 a2) : a1.map (·.1) = a2.map (·.1) := by
+  induction h with
+  | nil => rfl
+  | cons k v1 v2 r1 r2 _ _ ih => simp [ih]
+
+/-- … and equal values for every attribute that is not a CELLSIG field -/
+theorem attrsRel_values (T : Tables) (a1 a2 : Attrs) (h : AttrsRel T a1 a2) (k : AttrKey)
+    (hk : isCsigFid T k.1 = false) : a1.get? k = a2.get? k := by
+  rcases AttrsRel.get_rel T a1 a2 h k with ⟨h1, h2⟩ | ⟨v1, v2, h1, h2, hv⟩
+  · rw [h1, h2]
+  · rw [h1, h2]
+    unfold ValRel at hv
+    rw [hk] at hv
+    simp at hv
+    rw [hv]
+
+/-- the only CELLSIG-typed data field of the current tables is `CELLSIG` -/
+theorem C16_only_cellsig_is_csig :
+    ∀ f ∈ T16.fields, (f.ty == .csig) = (f.name == [67, 69, 76, 76, 83, 73, 71]) := by decide +kernel
+
+/-- every option value other than 2 is treated like 1 (0, 1, True, …): identical decoding -/
+theorem C16_label_normalised (T : Tables) (p : Bytes) (id : Ident) (l : Nat) (hl : l ≠ 2) (d : List Item) :
+    decItems ⟨T, Payload.ofBytes p, id, l⟩ d [] DState.init
+      = decItems ⟨T, Payload.ofBytes p, id, 1⟩ d [] DState.init :=
+  decItems_congr ⟨T, Payload.ofBytes p, id, l⟩ ⟨T, Payload.ofBytes p, id, 1⟩ rfl d
+    (fun fid _ idx s => decField_label_norm T _ id l hl fid idx s) [] DState.init
+
+def noCellMask (T : Tables) (d : List Item) : Bool :=
+  (fidsItems' d).all fun fid => !(some fid == T.special.df396)
+
+/-- messages that are not MSM are unaffected by the option: a definition without the cell mask
+    decodes identically under every option value … -/
+theorem C16_non_msm_unaffected (T : Tables) (p : Bytes) (id : Ident) (l1 l2 : Nat) (d : List Item)
+    (h : noCellMask T d = true) :
+    decItems ⟨T, Payload.ofBytes p, id, l1⟩ d [] DState.init
+      = decItems ⟨T, Payload.ofBytes p, id, l2⟩ d [] DState.init := by
+  apply decItems_congr ⟨T, Payload.ofBytes p, id, l1⟩ ⟨T, Payload.ofBytes p, id, l2⟩ rfl d
+  intro fid hf idx s
+  apply decField_label_indep
+  unfold noCellMask at h
+  rw [List.all_eq_true] at h
+  have := h fid hf
+  simpa using this
+
+/-- … and no non-MSM definition (standard or IGS SSR) contains the cell mask -/
+theorem C16_non_msm_defs_have_no_cell_mask : ∀ e ∈ T16.std ++ T16.igs, noCellMask T16 e.2 = true := by
+  decide +kernel
+
+/-- under each option a signal ID is labelled by a function of (constellation table, option, ID)
+    alone, so identically wherever it occurs -/
+theorem C16_label_is_function_of_id (T : Tables) (sm : List (Nat × Label × Label)) (l : Nat) (ids : List Nat) (i j : Nat)
+    (h : ids[i]? = ids[j]?) : (ids.map (sigLabel T sm l))[i]? = (ids.map (sigLabel T sm l))[j]? := by
+  simp [List.getElem?_map, h]
+
 end Rtcm
